@@ -249,6 +249,20 @@ def oracle(case):
             probes.append(("prefix%d" % k, secret, raw[:k]))
     probes += [("text", secret, "not a session"), ("b64", secret, base64.b64encode(b"\x01\x02random\xff" * 3).decode()),
                ("quote", secret, '"'), ("uni", secret, "žž")]
+    # cookies made under the right secret whose payload is JSON but not an object: documented error, nothing restored
+    for j, other_val in enumerate(([1, "x"], "text", 7, None)):
+        packed = json.dumps(other_val).encode()
+        enc = bytes(hidden(packed, secret))
+        probes.append(("nondict%d" % j, secret, base64.b64encode(comp.compress(enc) if comp else enc).decode()))
+    # no cookie at all, or a jar without this session's name: nothing to load, no error
+    for jar in (None, SimpleCookie(), "text"):
+        s0 = PoorSession(secret, compress=comp, sid=sid)
+        try:
+            s0.load(jar)
+        except Exception as err:
+            return [Violation("c13-load-raises:absent", case, "load(%r) raised %r" % (jar, err))]
+        if s0.data != {}:
+            return [Violation("c13-load-absent", case, "load(%r) left data %r" % (jar, s0.data))]
     for name, sec, val in probes:
         s3 = PoorSession(sec, compress=comp, sid=sid)
         c = SimpleCookie()
@@ -263,6 +277,9 @@ def oracle(case):
         except Exception as err:
             return [Violation("c13-load-raises:" + name.rstrip("0123456789"), case,
                               "loading %s cookie %r raised %r instead of SessionError" % (name, val[:40], err))]
+        if name.startswith("nondict"):
+            return [Violation("c13-nondict-accepted", case, "a cookie whose payload is %r was loaded without the session error"
+                              % (s3.data,))]
         if s3.data == data and data != {} and name != "prefix%d" % len(raw):
             return [Violation("c13-foreign-restored:" + name.rstrip("0123456789"), case,
                               "%s cookie restored the original data" % name)]
